@@ -97,6 +97,12 @@ def coq_prepare():
     rc, out = sh([sys.executable, os.path.join(ROOT, "tools", "gen_consts.py")], env={"VERIF_REPO": REPO, "VERIF_COQ": COQ})
     if rc != 0:
         return False, "gen_consts failed:\n" + out
+    # Tie 1b: small pure Rust functions translated to Gallina (coq/Gen/Fns.v); the Gen/Fns*P.v proofs
+    # tie the hand-written models to them.  A function that can no longer be translated is left out of
+    # Fns.v (reason in a comment there), so only the proofs that mention it stop compiling.
+    rc, out = sh([sys.executable, os.path.join(ROOT, "tools", "gen_fns.py")], env={"VERIF_REPO": REPO, "VERIF_COQ": COQ})
+    if rc != 0:
+        return False, "gen_fns failed:\n" + out
     files = coq_files()
     proj = "-Q . RV\n-arg -w -arg -notation-overridden,-deprecated-hint-without-locality,-deprecated-instance-without-locality\n" + "\n".join(files) + "\n"
     pp = os.path.join(COQ, "_CoqProject")
